@@ -1576,6 +1576,17 @@ impl PeerConnection {
                             break;
                         }
                     }
+                    // A session-level a=setup applies to every m= section without its own.
+                    if new_role.is_none()
+                        && let Some(val) = desc
+                            .session
+                            .attributes
+                            .iter()
+                            .find(|attr| attr.key == "setup")
+                            .and_then(|attr| attr.value.as_deref())
+                    {
+                        new_role = Some(!matches!(val, "active" | "actpass"));
+                    }
                 }
                 if let Some(r) = new_role {
                     let _ = self.inner.dtls_role.send(Some(r));
